@@ -220,3 +220,38 @@ Definition mkgroup (m : bool) (cn : cname) (a : list Uint63.int) : group := (m, 
 Definition judge_case (base : styles) (c : styles * bool * list group) : nat :=
   let '(user, with_spec, gs) := c in
   judge_queries (user ++ base) with_spec (flat_map queries_of gs) 1%nat 0%nat 0%nat.
+
+(* ---------------------------------------------------------- well-formed dictionaries (boolean predicate) *)
+(* what the algorithms need in order not to raise: depends on the system and the two symbol descriptors only *)
+Definition adequate_fields (sys : option csystem) (symbols : option (list sym)) (additive : option (list (Z * sym)))
+  : bool :=
+  match sys with
+  | None => negb (is_none symbols)                                  (* no system descriptor: symbolic *)
+  | Some (mkSys true _ _) => is_none symbols && is_none additive     (* extends: no symbols of its own *)
+  | Some (mkSys false s fx) =>
+      if String.eqb s "additive" then negb (is_none additive)
+      else if String.eqb s "numeric" then match symbols with Some (_ :: _) => true | _ => false end
+      else if String.eqb s "fixed" then negb (is_none symbols) && negb (is_none fx)
+      else if in_list s ["cyclic"; "symbolic"; "alphabetic"]%string then negb (is_none symbols)
+      else false
+  end.
+Definition adequate (c : cstyle) : bool := adequate_fields (c_system c) (c_symbols c) (c_additive c).
+
+(* 'decimal' is the style every dead end falls back to: it must render every integer by itself *)
+Definition decimal_ok (S : styles) : bool :=
+  match lookup "decimal" S with
+  | Some d =>
+    match c_system d, c_symbols d, c_range d with
+    | Some (mkSys false s _), Some l, (None | Some RAuto) => String.eqb s "numeric" && (2 <=? zlen l)
+    | _, _, _ => false
+    end
+  | None => false
+  end.
+Definition wf_styles (S : styles) : bool := decimal_ok S && forallb (fun kc => adequate (snd kc)) S.
+Definition wf_cname (cn : cname) : bool :=
+  match cn with
+  | CSymbols system args =>
+      in_list system ["cyclic"; "numeric"; "alphabetic"; "symbolic"; "fixed"]%string &&
+      (if String.eqb system "numeric" then negb (Nat.eqb (List.length args) 0) else true)
+  | _ => true
+  end.
